@@ -79,10 +79,9 @@ def report_bad(chk, real, hist_file, bad, tag, extra):
                       dict(kind="history", container=real, history=h, **extra))
 
 
-def run(chk, tier, seed):
-    rng = random.Random(seed)
-    wd = pipeline.workdir("conc")
-    exe = vf.build("conc", mode="plain", wraps=pipeline.default_wraps("plain"))
+def lock_protocol(chk, tier, wd, exe):
+    """Mutex.tla model-checked, and bound to the code: the two-thread scenario of `conc mutex` validated by MutexTrace.tla.  Shared with
+    C14: a release the library swallows leaves the lock held when the call returns."""
     # 0. the lock protocol itself (Q_MUTEX_ENTER/LEAVE as written, incl. the force-unlock path)
     cfg = os.path.join(wd, "mutex.cfg")
     vf.write_cfg(cfg, constants=dict(Threads={1, 2, 3}, MaxSpin=2, MaxDepth=2, Recursive=True), invariants=["MutualExclusion", "DepthMatches"])
@@ -114,6 +113,13 @@ def run(chk, tier, seed):
         chk.cov["traces_validated_against_impl"] += 1
         chk.add_cases(vf.count_lines(mtrace), distinct_n=1)
 
+
+
+def run(chk, tier, seed):
+    rng = random.Random(seed)
+    wd = pipeline.workdir("conc")
+    exe = vf.build("conc", mode="plain", wraps=pipeline.default_wraps("plain"))
+    lock_protocol(chk, tier, wd, exe)
     # 1. all interleavings of the client programs at block granularity: design-level linearizability + schedule export
     jobs = []
     for km, (progs, reals, nk) in MODELS.items():
